@@ -11,8 +11,8 @@ import time
 from harness import core, server_tools as st
 
 PROP = 'C18'
-PROOFS = ['theories/Server/Model.v']
-HEADER = 'From PW Require Import Server.Model Server.Run.\nOpen Scope Z_scope.\n'
+PROOFS = ['theories/Server/Model.v', 'theories/Server/CtxWork.v']
+HEADER = 'From PW Require Import Server.Model Server.Run Server.CtxWorkRun.\nOpen Scope Z_scope.\n'
 
 
 def play(addr, hist, res):
@@ -51,7 +51,16 @@ def play(addr, hist, res):
         elif op[0] == 'worker':
             i = op[1]
             from harness.props.c20 import construct
-            o, x, _ = construct(lambda: PersistentRemoteWorker(None, host=addr, context=i))
+            how = op[2] if len(op) > 2 else 'none'
+            if how == 'own':        # the creator passes a target and defaults of its own along
+                o, x, _ = construct(lambda: PersistentRemoteWorker(st.own_target, host=addr, context=i, kwargs={'exp': 9}))
+            elif how == 'pool':     # ... which is what a Pool always does for its workers
+                from pyworkers.pool import Pool
+                from pyworkers.worker import WorkerType
+                pool = Pool(st.own_target, kwargs={'exp': 9})
+                o, x, _ = construct(lambda: pool.add_worker(WorkerType.REMOTE, host=addr, context=i))
+            else:
+                o, x, _ = construct(lambda: PersistentRemoteWorker(None, host=addr, context=i))
             if o == 'hang':
                 viol.append(f'starting a worker in context {i} ({"registered" if i in ctxs else "unknown"}) hangs')
                 sessions.append(f'mkSession (RWorkerCtx {i}) PComplete'); replies.append('NoReply')
@@ -65,8 +74,11 @@ def play(addr, hist, res):
             if created:
                 try:
                     v = w.call(2)
+                    if i in exps:
+                        res.ctxwork.append((how != 'none', exps[i], v == 2 ** exps[i], [list(o) for o in hist]))
                     if i in exps and v != 2 ** exps[i]:
-                        viol.append(f'worker in context {i} computed {v}, its context\'s target/defaults give {2 ** exps[i]}')
+                        viol.append(f'worker in context {i} ({"created with target=None" if how == "none" else "its creator passed a target of its own" if how == "own" else "added by a Pool"}) '
+                                    f'computed {v!r}, its context\'s target/defaults give {2 ** exps[i]}')
                     w.wait(10)
                 except Exception as e:
                     viol.append(f'worker in context {i}: {type(e).__name__}: {e}')
@@ -89,7 +101,7 @@ def gen_history(rnd, n):
         elif r < 0.72:
             h.append(('delete', rnd.choice([7, 8])))
         elif r < 0.92:
-            h.append(('worker', i))
+            h.append(('worker', i) if rnd.random() < 0.6 else ('worker', i, rnd.choice(['own', 'pool'])))
         else:
             h.append(('worker', rnd.choice([7, 9])))
     return h
@@ -105,14 +117,16 @@ def main(tier, seed, replay=None):
                 'compared with the model; server liveness and process leftovers are checked after every history. Non-trivial = history with a duplicate, a delete or an unknown id.')
     res.assumptions = ['"deleting a context ends its workers" relies on the helper process terminating its children (checked on the process tree, see also C12)']
     res.trusted.append('hand-written model Server/Model.v (pinned to RemoteServer.run); harness/props/c18.py')
-    core.prove(res, PROP, ['ServerLoop'], PROOFS, run_files=['theories/Server/Run.v'])
+    core.prove(res, PROP, ['ServerLoop', 'CtxWork'], PROOFS, run_files=['theories/Server/Run.v', 'theories/Server/CtxWorkRun.v'])
     sys.path.insert(0, core.REPO)
     rnd = random.Random(seed)
     hists = [[('create', 1, 3), ('create', 1, 2), ('worker', 1), ('delete', 1), ('worker', 1), ('create', 1, 2), ('worker', 1)],
              [('delete', 5), ('worker', 5), ('create', 2, 4), ('create', 3, 2), ('worker', 3), ('worker', 2), ('delete', 2), ('worker', 3)],
              [('create', 1, 2), ('create', 2, 3), ('create', 3, 4), ('create', 2, 2), ('worker', 2), ('delete', 2), ('delete', 2), ('create', 2, 2), ('worker', 2)]]
+    hists.append([('create', 1, 3), ('worker', 1, 'own'), ('worker', 1, 'pool'), ('worker', 1), ('create', 2, 2), ('worker', 2, 'own'), ('delete', 1), ('worker', 1, 'own')])
     hists += [gen_history(rnd, rnd.randint(3, 8)) for _ in range(10 if tier == 'quick' else 120)]
     terms, keep = [], []
+    res.ctxwork = []
     for h in hists:
         server = st.start_server()
         try:
@@ -175,10 +189,18 @@ def main(tier, seed, replay=None):
                     pass
         finally:
             server.terminate(force=True)
+    nhist = len(terms)
+    for own, exp, is_ctx, h in res.ctxwork:
+        terms.append(f'check_ctxwork {"true" if own else "false"} {exp} {"true" if is_ctx else "false"}')
+        what = 'with work of its own passed along' if own else 'target=None'
+        keep.append((h, f"a worker ({what}) in a context with exponent {exp} computed {'the value of the context' if is_ctx else 'another value'}", None))
+    res.count('work-path observations', len(res.ctxwork))
     bad, err = core.coq_eval_cases(PROP, HEADER, terms, per_file=50)
     res.traces_validated = len(terms) - len(bad)
     if err:
         res.tie('correspondence:coq-eval', err)
-    for i in bad[:5]:
+    for i in [i for i in bad if i >= nhist][:3]:
+        res.tie('correspondence:context-work-path', dict(history=keep[i][0], implementation=keep[i][1], term=terms[i]))
+    for i in [i for i in bad if i < nhist][:5]:
         res.tie('correspondence:contexts', dict(history=[list(o) for o in keep[i][0]], implementation=dict(replies=keep[i][1], registered=keep[i][2]), term=terms[i][:1200]))
     return res.finish()
